@@ -160,10 +160,10 @@ def families(k):
     return [f"f{i}" for i in range(k)]
 
 
-def random_syntenies(rng, leaves, nfam, ordered=True, consistent_p=0.8, min_len=1):
+def random_syntenies(rng, leaves, nfam, ordered=True, consistent_p=0.8, min_len=1, min_fam=1):
     """Leaf syntenies over a universe of <= nfam families.  Ordered: mostly consistent with
     one hidden order, sometimes arbitrary orders (may be cyclic)."""
-    k = rng.randint(1, nfam)
+    k = rng.randint(min(min_fam, nfam), nfam)
     fams = families(k)
     hidden = list(fams)
     rng.shuffle(hidden)
